@@ -626,6 +626,33 @@ Definition multi_results (cps : list (call * point)) (cancelled : list nat) (z :
       (combine (seq 0 (length cps)) (firstn (length cps) (calls (multi_run cps cancelled z)))).
 
 (* ===================================================================================== *)
+(** * 5c. A message handler in progress: the reader goroutine is inside user code *)
+
+(* While handler.Serve runs the reader takes no step (serve.go:84-90,96-102,139-146 call the handler after
+   releasing c.mu, so nobody else is held up). Schedules without reader steps: *)
+Definition successors_nr (s : sys) : list sys :=
+  flat_map (fun l => match step l s with Some s' => [s'] | None => [] end) (tl (all_labels (length (calls s)))).
+
+Fixpoint greedy_nr (fuel : nat) (s : sys) : sys :=
+  match fuel with
+  | O => s
+  | S f => match successors_nr s with [] => s | s' :: _ => greedy_nr f s' end
+  end.
+
+Definition cancel_all (x : ctxst) (s : sys) : sys := set_calls s (map (fun c => set_cx c x) (calls s)).
+
+(* requests issued while a handler is parked; [closed_before]: the transport was closed locally (Close or
+   Disconnect) before they were issued — afterwards it makes no difference to them, only the reader could
+   notice; then all their contexts end *)
+Definition handler_run (closed_before : bool) (cs : list call) (z : cause) : sys :=
+  let s0 := conn0 true (map (fun c => fresh c 0) cs) in
+  let s1 := greedy_nr FUELM (if closed_before then set_tclosed s0 true else s0) in
+  greedy_nr FUELM (cancel_all (match z with CtxDeadline => CtxExpired | _ => CtxCanceled end) s1).
+
+Definition handler_results (closed_before : bool) (cs : list call) (z : cause) : list (rclass * bool) :=
+  map (fun c => (classify unwraps_fixed (cause_sentinel z) c, retryable c)) (calls (handler_run closed_before cs z)).
+
+(* ===================================================================================== *)
 (** * 6. The reconnecting client *)
 
 (* where the loop goroutine of reconnectClient.Connect is (reconnclient.go:81-169) *)
